@@ -290,6 +290,20 @@ def main():
     if not re.search(r"terminated\s*\(\s*tag_no_case\s*\(\s*w\s*\)\s*,\s*word_boundary\s*\(\s*\)\s*\)", wd):
         die("parser/common.rs: word: is no longer `terminated(tag_no_case(w), word_boundary())`")
 
+    # ---- trivia1 (between the words of a multi-word keyword) ---------------------------------
+    t1 = re.sub(r"\s+", " ", fn_body(common, "trivia1", "parser/common.rs"))
+    if re.search(r"take_while1\s*\(\s*\|\s*(\w+)\s*:\s*char\s*\|\s*\1\s*\.\s*is_whitespace\s*\(\s*\)\s*\)", t1) and "multispace" not in t1:
+        trivia1_ws = "char::is_whitespace"
+    elif re.search(r"\bmultispace1\b", t1):
+        trivia1_ws = "multispace1"
+    else:
+        die("parser/common.rs: trivia1: whitespace class not recognised (expected take_while1(|c: char| c.is_whitespace()))")
+    if not re.search(r'peek\s*\(\s*tag\s*\(\s*"//"\s*\)\s*\)', t1) or not re.search(r"skip_ws_and_comments\s*\(\s*\w+\s*\)", t1):
+        die("parser/common.rs: trivia1: is no longer `alt((whitespace1, peek(tag(\"//\")))) then skip_ws_and_comments`")
+    wds = re.sub(r"\s+", " ", fn_body(common, "words", "parser/common.rs"))
+    if not re.search(r"trivia1\s*\(", wds) or not re.search(r"tag_no_case\s*\(", wds) or not re.search(r"word_boundary\s*\(\s*\)", wds):
+        die("parser/common.rs: words: is no longer trivia1 / tag_no_case / word_boundary")
+
     # ---- parse_kip alt order ----------------------------------------------------------------
     pk = fn_body(parser, "parse_kip", "parser.rs")
     order = []
@@ -370,6 +384,8 @@ def main():
     out.append(f"def commentEnd : Char := {lean_char(comment_end)}")
     out.append("/-- non-alphanumeric characters that still glue to a keyword (`word_boundary`) -/")
     out.append(f"def boundaryExtra : List Char := {lean_chars(boundary_extra)}")
+    out.append("/-- whitespace class `trivia1` requires between the words of a multi-word keyword -/")
+    out.append(f'def trivia1Whitespace : String := "{trivia1_ws}"')
     out.append("/-- order of the families in `parse_kip`'s `alt` -/")
     out.append("def kipAltOrder : List String := [" + ", ".join(f'"{f}"' for f in fams) + "]")
     for fam in ["kql", "kml", "meta"]:
